@@ -46,6 +46,11 @@ type StoreMon struct {
 	Recv   *eng.Term
 	MuIdx  int
 	DatIdx int
+	// Extra: an exported method that is not one of the operations the properties name (the nine
+	// map operations, the typed getters, Bind). It has no effect specification and need not be
+	// one critical section; it must still touch the map only under the store's lock, keep the
+	// map inside the store and take no other lock while holding the store's.
+	Extra bool
 }
 
 type mapOp struct {
@@ -197,9 +202,15 @@ func (m *StoreMon) OnEvent(c *eng.Ctx, ms eng.MState, ev *eng.Event) eng.MState 
 		switch ev.Class {
 		case "lock", "rlock", "trylock":
 			isOwn := len(ev.Args) > 0 && ev.Args[0] == m.muAddr()
+			if m.Extra && !isOwn && m.otherStoreMu(ev) {
+				// an operation of another store, called from an additional method: it is that store's
+				// own critical section; holding this store's lock across it would order the two locks
+				chk("C13.R3", "lock", s.mode == 0, "another store's lock is taken while this store's lock is held (lock-order inversion between two stores can deadlock)")
+				return s
+			}
 			chk("C13.R3", "lock", isOwn, "a mutex other than the store's own is taken: "+prettyArgs(ev.Args))
 			chk("C13.R4", "lock", s.mode == 0, "the store's lock is taken while already held (self-deadlock / nested section)")
-			chk("C13.R2", "lock", s.sections == 0, "a second critical section is entered in one operation: the operation is no longer atomic (another goroutine can interleave between the sections)")
+			chk("C13.R2", "lock", s.sections == 0 || m.Extra, "a second critical section is entered in one operation: the operation is no longer atomic (another goroutine can interleave between the sections)")
 			chk("C13.R3", "lock", ev.Class != "trylock", "TryLock may fail and is not handled by the discipline")
 			if ev.Class == "rlock" {
 				s.mode = 1
@@ -210,6 +221,9 @@ func (m *StoreMon) OnEvent(c *eng.Ctx, ms eng.MState, ev *eng.Event) eng.MState 
 				s.sections++
 			}
 		case "unlock", "runlock":
+			if m.Extra && m.otherStoreMu(ev) {
+				return s
+			}
 			want := int8(2)
 			if ev.Class == "runlock" {
 				want = 1
@@ -413,11 +427,24 @@ func (m *StoreMon) OnEvent(c *eng.Ctx, ms eng.MState, ev *eng.Event) eng.MState 
 					chk("C13.R5,C14.R4", "escape", false, "the store's internal map is returned to the caller")
 				}
 			}
+			if m.Extra {
+				return s
+			}
 			chk("C13.R2", "return", s.sections <= 1, "more than one critical section on this path")
 			m.checkSpec(c, s, ev)
 		}
 	}
 	return s
+}
+
+// otherStoreMu: the lock event is on the mutex field of a SharedStore other than the receiver.
+func (m *StoreMon) otherStoreMu(ev *eng.Event) bool {
+	if len(ev.Args) == 0 {
+		return false
+	}
+	a := ev.Args[0]
+	return a != m.muAddr() && a.K == eng.KFieldAddr && a.I == int64(m.MuIdx) && ev.Fn != nil && ev.Fn.Signature.Recv() != nil &&
+		recvName(ev.Fn.Signature.Recv().Type()) == "SharedStore"
 }
 
 // isFreshMap: a map made during the analysed call.
@@ -628,13 +655,22 @@ func AnalyzeStore(p *load.Program, r *Roles, depth int) *UnitResult {
 	}
 	sort.Strings(names)
 	specNeeded := map[string]bool{"Set": true, "Get": true, "Has": true, "Delete": true, "Len": true, "Clear": true, "Merge": true, "Keys": true, "GetAll": true}
+	// the operations the properties name: the nine map operations and the derived readers (typed
+	// getters with their Or forms, Bind). Any other exported method is an addition (StoreMon.Extra).
+	named := map[string]bool{"Bind": true, "MustBind": true}
+	for n := range specNeeded {
+		named[n] = true
+	}
+	for _, t := range []string{"String", "Int", "Float64", "Bool", "Slice", "Map"} {
+		named["Get"+t], named["Get"+t+"Or"] = true, true
+	}
 	for _, name := range names {
 		fn := p.Method("SharedStore", name)
 		if fn == nil || len(fn.Blocks) == 0 || !fn.Object().Exported() {
 			continue
 		}
 		delete(specNeeded, name)
-		mon := &StoreMon{R: r, Col: col, Method: name, Fn: fn, Recv: eng.Param(0, fn.Params[0].Name()), MuIdx: mu, DatIdx: data}
+		mon := &StoreMon{R: r, Col: col, Method: name, Fn: fn, Recv: eng.Param(0, fn.Params[0].Name()), MuIdx: mu, DatIdx: data, Extra: !named[name]}
 		var e *eng.Engine
 		cfg := eng.Config{Prog: p.Prog, Pkg: p.SSA, Fset: p.Fset, Root: fn, MaxDepth: depth, MaxStates: 20000,
 			Classify: r.Classifier(Mode{}), IntLowerBound: budgetLowerBound(&e), Monitors: []eng.Monitor{&makeMapMon{}, mon}, LoadEvents: true}
